@@ -41,8 +41,58 @@ def _cb(data):
     data["cb"] = "called"
 
 
+DECL = {}  # id(randomizer object) -> parameters as *declared* by the generator (never read back from the object)
+
+
+class _Decl:
+    """Creates randomizers and remembers the declared parameters independently of the library object."""
+
+    def __init__(self, tg):
+        self.tg = tg
+
+    def _reg(self, obj, **params):
+        DECL[id(obj)] = params
+        return obj
+
+    def RangeRandomizer(self, lo, hi, *, probability=1.0, none_value=None):
+        return self._reg(self.tg.RangeRandomizer(lo, hi, probability=probability, none_value=none_value),
+                         min=lo, max=hi, probability=probability, none_value=none_value, is_float=isinstance(lo, float))
+
+    def ValueRandomizer(self, value, *, probability):
+        return self._reg(self.tg.ValueRandomizer(value, probability=probability), value=value, probability=probability)
+
+    def SparseBoolRandomizer(self, *, probability):
+        return self._reg(self.tg.SparseBoolRandomizer(probability=probability), value=True, probability=probability)
+
+    def SampleRandomizer(self, lst, *, counts=None, probability=1.0):
+        return self._reg(self.tg.SampleRandomizer(lst, counts=counts, probability=probability), sample_list=list(lst), probability=probability)
+
+    def DateRangeRandomizer(self, lo, hi, *, as_js_stamp=True, probability=1.0):
+        import datetime as _dt
+
+        hi_d = lo + _dt.timedelta(days=hi) if isinstance(hi, int) else hi
+        return self._reg(self.tg.DateRangeRandomizer(lo, hi, as_js_stamp=as_js_stamp, probability=probability),
+                         min=lo, max=hi_d, as_js_stamp=as_js_stamp, probability=probability)
+
+    def TextRandomizer(self, template, *, probability=1.0):
+        return self._reg(self.tg.TextRandomizer(template, probability=probability), template=template, probability=probability)
+
+    def BlindTextRandomizer(self, *, sentence_count=(2, 6), probability=1.0):
+        return self._reg(self.tg.BlindTextRandomizer(sentence_count=sentence_count, probability=probability), probability=probability)
+
+
+class _P:
+    """Attribute view on a declared-parameter dict."""
+
+    def __init__(self, d):
+        self.__dict__.update(d)
+
+
 def gen_def(rng):
-    from nutree import tree_generator as tg
+    from nutree import tree_generator as _tg
+
+    DECL.clear()
+    tg = _Decl(_tg)
 
     ntypes = rng.randint(1, 4)
     types = [f"T{i}" for i in range(ntypes)]
@@ -66,10 +116,13 @@ def gen_def(rng):
             tdefs[ty][":factory"] = Fac
         if rng.random() < 0.2:
             tdefs[ty]["tr"] = tg.RangeRandomizer(100, 105)
+        if rng.random() < 0.2:
+            # a default count for this type (relations may override it)
+            tdefs[ty][":count"] = rng.choice([0, 2, 3, tg.RangeRandomizer(2, 4)])
 
     def spec():
         s = {}
-        c = rng.choice(["fixed", "fixed", "range", "default", "rangep", "zero"])
+        c = rng.choice(["fixed", "fixed", "range", "default", "default", "rangep", "zero", "rangep0"])
         if c == "fixed":
             s[":count"] = rng.randint(1, 3)
         elif c == "zero":
@@ -79,6 +132,8 @@ def gen_def(rng):
             s[":count"] = tg.RangeRandomizer(a, a + rng.randint(1, 3))
         elif c == "rangep":
             s[":count"] = tg.RangeRandomizer(1, 3, probability=0.5)
+        elif c == "rangep0":
+            s[":count"] = tg.RangeRandomizer(1, 3, probability=0.0)  # never fires: no children
         s["title"] = rng.choice(["N {idx}", "H {hier_idx}", "{idx}:{hier_idx}", "plain", "{hier_idx}/{idx}/{idx}"])
         if rng.random() < 0.5:
             s["v"] = tg.RangeRandomizer(5, 9)
@@ -185,7 +240,10 @@ def check_tree(tree, sd, typed, bad, res):
             n = len(run)
             res.count("relations_checked")
             if isinstance(cnt, tg.RangeRandomizer):
+                cnt = _P(DECL[id(cnt)])
                 ok = cnt.min <= n <= cnt.max or (cnt.probability < 1.0 and n == 0)
+                if cnt.probability == 0.0 and n != 0:
+                    ok = False  # (random() <= 0.0 has probability 2**-53: treated as never)
                 if not ok:
                     bad.append(f"{n} children of type {ty} below a {ptype}, count range [{cnt.min},{cnt.max}] p={cnt.probability}")
             elif n != cnt:
@@ -202,25 +260,29 @@ def check_tree(tree, sd, typed, bad, res):
                         bad.append(f"unexpected special key {key}")
                     if isinstance(val, tg.Randomizer):
                         res.count(f"rand:{type(val).__name__}")
+                        rcls = type(val)
+                        val = _P(DECL[id(val)])
                         if key not in a:
-                            if val.probability == 1.0 or (isinstance(val, tg.RangeRandomizer) and val.none_value is not None):
+                            if val.probability == 1.0 or (issubclass(rcls, tg.RangeRandomizer) and val.none_value is not None):
                                 bad.append(f"attribute {key} missing although probability is 1.0 / none_value set")
                             continue
                         v = a[key]
+                        if val.probability == 0.0 and not (issubclass(rcls, tg.RangeRandomizer) and val.none_value is not None):
+                            bad.append(f"attribute {key} is present although its probability is 0.0")
                         if v is None:
                             bad.append(f"skipped attribute {key} stored as None")
-                        elif isinstance(val, tg.RangeRandomizer):
+                        elif issubclass(rcls, tg.RangeRandomizer):
                             if v == val.none_value and val.probability < 1.0:
                                 pass
                             elif not (val.min <= v <= val.max) or (val.is_float != isinstance(v, float)):
                                 bad.append(f"attribute {key}={v!r} outside [{val.min},{val.max}]")
-                        elif isinstance(val, tg.SampleRandomizer):
+                        elif issubclass(rcls, tg.SampleRandomizer):
                             if v not in val.sample_list:
                                 bad.append(f"attribute {key}={v!r} not in sample list")
-                        elif isinstance(val, tg.ValueRandomizer):
+                        elif issubclass(rcls, tg.ValueRandomizer):
                             if v != val.value:
                                 bad.append(f"attribute {key}={v!r} != {val.value!r}")
-                        elif isinstance(val, tg.DateRangeRandomizer):
+                        elif issubclass(rcls, tg.DateRangeRandomizer):
                             if val.as_js_stamp:
                                 lo = datetime.datetime(val.min.year, val.min.month, val.min.day, tzinfo=datetime.timezone.utc).timestamp() * 1000
                                 hi = (datetime.datetime(val.max.year, val.max.month, val.max.day, tzinfo=datetime.timezone.utc).timestamp() + 86400) * 1000
@@ -228,14 +290,14 @@ def check_tree(tree, sd, typed, bad, res):
                                     bad.append(f"js date stamp {v!r} outside [{lo},{hi}]")
                             elif not (isinstance(v, datetime.date) and val.min <= v <= val.max):
                                 bad.append(f"date {v!r} outside [{val.min},{val.max}]")
-                        elif isinstance(val, tg.TextRandomizer):
+                        elif issubclass(rcls, tg.TextRandomizer):
                             if not isinstance(v, str) or not v:
                                 bad.append(f"text attribute {key}={v!r}")
                             elif isinstance(val.template, str) and "$(" not in val.template:
                                 exp = {val.template.format(idx=j, hier_idx=h) for j in idx_opts for h in hier_opts}
                                 if v not in exp:
                                     bad.append(f"text attribute {key}={v!r}, expected one of {sorted(exp)}")
-                        elif isinstance(val, tg.BlindTextRandomizer):
+                        elif issubclass(rcls, tg.BlindTextRandomizer):
                             if not isinstance(v, str) or not v:
                                 bad.append(f"blind text attribute {key}={v!r}")
                     elif isinstance(val, str):
@@ -272,6 +334,29 @@ def run_case(case, res):
     before = repr(describe(sd))
     try:
         with case_deadline(30):
+            if case.get("failed_build_first"):
+                # an earlier build that is aborted by a raising callback must not influence later builds
+                import copy as _copy
+
+                class _Boom(Exception):
+                    pass
+
+                calls = [0]
+
+                def _raising(data):
+                    calls[0] += 1
+                    if calls[0] >= 2:
+                        raise _Boom()
+
+                sd_bad = {"relations": {"__root__": {"X": {":count": 2, "t": "{hier_idx}"}},
+                                        "X": {"Y": {":count": 2, "t": "{hier_idx}", ":callback": _raising}}}}
+                try:
+                    cls.build_random_tree(sd_bad)
+                    bad.append("a build whose callback raises did not raise")
+                except _Boom:
+                    res.count("failed_builds_before")
+                except Exception:
+                    res.count("failed_builds_before_other_exception")
             random.seed(case["rand_seed"])
             try:
                 if case["rand_seed"] % 3 == 0:
@@ -319,7 +404,7 @@ def run_shard(spec, res):
         ds = rng.randrange(10**9)
         for rs in (rng.randrange(10**6), rng.randrange(10**6)):
             for cls in ("plain", "typed"):
-                run_case({"def_seed": ds, "rand_seed": rs, "cls": cls}, res)
+                run_case({"def_seed": ds, "rand_seed": rs, "cls": cls, "failed_build_first": (j + rs) % 4 == 0}, res)
         if res.expired():
             break
 
